@@ -20,7 +20,10 @@ FIELDS = ['position', 'rotation', 'scale']
 
 def vec(rng, dim):
     # a Vec (p), a plain tuple (t) or a list (l): whatever is assigned is what is stored and notified
-    return rng.choice('ppptl') + '_'.join(str(rng.randint(-3, 9)) for _ in range(dim))
+    # (now and then an integer no float can hold: stored and notified values are the given ones, not roundings)
+    comp = lambda: str(rng.choice([2 ** 53 + 1, -(2 ** 53) - 3, 10 ** 17 + 7]) if rng.random() < 0.06
+                       else rng.randint(-3, 9))    # noqa
+    return rng.choice('ppptl') + '_'.join(comp() for _ in range(dim))
 
 
 def generate(rng, tier):
